@@ -45,7 +45,8 @@ pub enum LangResult {
 }
 
 pub fn run_lang(lang: Lang, cfg: &Cfg, src: &str, w: &mut Worker, exec_python: bool) -> LangResult {
-    match ts::generate(lang, cfg, &[src], &[]) {
+    let outcome = if w.via_cli { crate::cli::generate(lang, cfg, src, &w.scratch) } else { ts::generate(lang, cfg, &[src], &[]) };
+    match outcome {
         Outcome::Ok(text) => match observe(lang, &text, w, exec_python) {
             Ok(o) => LangResult::Observed(text, o),
             Err(e) => LangResult::Unobservable(text, e),
